@@ -525,12 +525,83 @@ def rand_xpat(rng, depth=0):
     return xpat(kind, alts, pre if depth == 0 else "", post if depth == 0 else "")
 
 
+# -- adjacent extglob groups without `|`: greedy is not longest when the first group can swallow the start of what the
+#    next one needs (`?(a)?(ab)` on `ab`), so a single greedy search is not the candidate scan --------------------------
+
+ADJ_KINDS = ["?", "*", "+", "@"]
+ADJ_BODIES = ["a", "b", "ab", "ba", "aé"]
+ADJ_TRIPLES = ["@(a)?(b)?(bc)", "?(a)?(ab)?(abb)", "*(a)*(ab)+(abb)", "?(a)*(ab)?(abab)", "?(abb)?(bb)?(b)", "*(bab)*(ab)*(b)",
+               "+(a)?(ab)*(b)", "?(a)?(aé)?(aéa)", "?(x)?(x.tar)", "*(/usr)*(/usr/lib)", "?(é)?(éa)", "?(aé)?(é)"]
+ADJ_VALUES = ["", "a", "b", "ab", "ba", "aab", "abb", "aba", "bab", "abab", "abba", "aé", "aaé", "aéa", "aéb", "éa", "abc", "abbc",
+              "ababab", "x.tar.gz", "/usr/lib/x", "aé日"]
+
+
+def adjacent_related_pairs():
+    out = []
+    for x in ADJ_BODIES:
+        for y in ADJ_BODIES:
+            if x != y and (y.startswith(x) or x.startswith(y) or y.endswith(x) or x.endswith(y)):
+                out.append((x, y))
+    return out
+
+
+def adjacent_exhaustive(ctx):
+    out = []
+    wraps = [("", ""), ("", "b")] + ([] if ctx.quick else [("a", ""), ("", "*"), ("*", ""), ("b", ""), ("", "a"), ("?", ""), ("", "?")])
+    values = [v for v in ADJ_VALUES if v not in ("a", "b", "abba", "aéb", "éa", "ababab")] if ctx.quick else ADJ_VALUES
+    pats = []
+    for x, y in adjacent_related_pairs():
+        for k1 in ADJ_KINDS:
+            for k2 in ADJ_KINDS:
+                for pre, post in wraps:
+                    pats.append("%s%s(%s)%s(%s)%s" % (pre, k1, x, k2, y, post))
+    pats += ADJ_TRIPLES
+    for pt in ADJ_TRIPLES[:7]:
+        pats += [pt + "*", "*" + pt, pt + "b", "a" + pt]
+    for pt in pats:
+        for k in RM_KINDS:
+            for v in values:
+                out.append(Case("xadj", ("named", v, ""), ("rmx", k, pt)))
+    for pt in ["?(a)?(ab)", "*(a)*(ab)", "?(ab)?(b)", "?(a)+(ab)"]:
+        for k in RM_KINDS:
+            out.append(Case("xadj", ("all", ["ab", "aab", "", "aé"], False, False), ("rmx", k, pt)))
+            out.append(Case("xadj", ("posall", ["abab", "ab"], True), ("rmx", k, pt)))
+    return out
+
+
+def rand_adjacent(rng):
+    """2-3 adjacent single-alternative groups whose bodies grow at the end (prefix chains) or at the front (suffix chains)"""
+    base = rng.choice(["a", "b", "ab", "é", "aé", "ba"])
+    bodies = [base]
+    grow_end = rng.random() < 0.5
+    for _ in range(rng.randint(1, 2)):
+        ext = rng.choice(["a", "b", "é", "ab"])
+        bodies.append(bodies[-1] + ext if grow_end else ext + bodies[-1])
+    if rng.random() < 0.3:
+        bodies.reverse()
+    pt = "".join("%s(%s)" % (rng.choice(ADJ_KINDS), b) for b in bodies)
+    r = rng.random()
+    if r < 0.15:
+        pt += rng.choice(["a", "b", "*", "?"])
+    elif r < 0.3:
+        pt = rng.choice(["a", "b", "*", "?"]) + pt
+    parts = bodies + ["a", "b", "é"]
+    v = "".join(rng.choice(parts) for _ in range(rng.randint(0, 4)))
+    return v, pt
+
+
 def extglob_random(ctx, n):
     rng = ctx.rng
     out = []
     for _ in range(n):
         v = "".join(rng.choice("aabbé") for _ in range(rng.randint(0, 6)))
         out.append(Case("xrand", ("named", v, ""), ("rmx", rng.choice(RM_KINDS), rand_xpat(rng))))
+    # adjacent groups without `|` (own generator object: the families above keep their seeds' cases)
+    import random as _random
+    rng2 = _random.Random("adjacent-%s" % getattr(ctx, "seed", 0))
+    for _ in range(n // 3):
+        v, pt = rand_adjacent(rng2)
+        out.append(Case("xrand", ("named", v, ""), ("rmx", rng2.choice(RM_KINDS), pt)))
     return out
 
 
@@ -1301,6 +1372,7 @@ def run(ctx):
     cases += direct_cases(ctx, 0)
     cases += extglob_direct(ctx)
     cases += unmodelled_state_table(ctx)
+    cases += adjacent_exhaustive(ctx)
     cases += subst_exhaustive(ctx)
     cases += subst_random(ctx, ctx.size(4000, 60000))     # (drawn last: the earlier families keep their seeds' cases)
     # de-duplicate (the exhaustive families overlap)
